@@ -66,6 +66,14 @@ def intersection_rule(rep, F):
                         problems.append(("payload", "Closest::Intersection carries %s, not a copy of the query point p: the caller can receive a rounded point that is not p" % payload[:100]))
                     if not any(v == 1 for v in inter):
                         problems.append(("guard", "Closest::Intersection is built on a path where self.intersects(p) was not found true [%s]" % show_pc(p.pc)[:120]))
+            differ = any(s in ("(a1 == a2)", "(a2 == a1)", "eq(a1, a2)") and v == 0 for s, v in atoms)
+            for e in p.trace:
+                # a SinglePoint that is a copy of an end point of self is the clamped case (p projects outside the segment; for a p on the segment the
+                # monotone rounding of the projection parameter keeps it within [0, 1]); a COMPUTED point needs the exact negative test
+                if e[0] == "agg" and e[1] == CL and e[2] == "SinglePoint" and not re.match(r"^(into\()?a1(\.start|\.end)?\)?$", bare(e[3][0])) \
+                        and not (any(v == 0 for v in inter) or differ):
+                    problems.append(("single-without-test", "Closest::SinglePoint is built on a path that never found self.intersects(p) false [%s]: a query point lying exactly on the geometry "
+                                     "whose rounded projection differs from it is reported as SinglePoint instead of Intersection(p)" % show_pc(p.pc)[:140]))
             if any(v == 1 for v in inter):
                 r = p.ret
                 if not (r[0] == "adt" and r[1] == CL and r[2] == "Intersection"):
